@@ -94,7 +94,10 @@ pub fn write_plain(mode: &str, ops: &str) -> Result<Vec<u8>, String> {
 fn chk_startpos(mode: &str, p: u64, pre: &[u8], ops: &str) -> Result<(), String> {
     let reference = write_plain(mode, ops)?;
     let st = build_state(mode, ops)?;
-    let (r, core) = write_to(st, Core::new(pre.to_vec(), p));
+    // a sink that accepts a varying number of bytes per write call (a writer may legally do so)
+    let mut sink = Core::new(pre.to_vec(), p);
+    sink.sched = crate::streams::Schedule { chunks: vec![50, 3, 1 << 20, 7, 4096], pend: vec![] };
+    let (r, core) = write_to(st, sink);
     res(r, "to_writer at a non-zero position")?;
     let img = core.data;
     let keep = (p as usize).min(pre.len());
